@@ -33,7 +33,9 @@ TRUSTED = ['correspondence: harness/props/c06.py + harness/world.py + harness/re
            'zlib as the independent RFC 7692 peer and as the judge of the bit-level inflater']
 ASSUMPTIONS = ['zlib deflate with window 2^w only emits matches with distance <= 2^w - 262 and within the data it has seen (measured on every compressed message of every run)',
                'zlib sync-flush output ends in 00 00 ff ff (asserted on every message)',
-               'the bit-level inflater in Model/Inflate.lean is executable model only (validated against zlib, nothing proved about Huffman decoding); '
+               'the bit-level inflater in Model/Inflate.lean is proved correct for stored, fixed-Huffman and dynamic-Huffman blocks (canonical codes of any complete code lengths, lengths sent without repeat codes) '
+               'against the reference encoder of Model/DeflEnc.lean (Properties/C06_Inflate.lean; the encoder is validated against zlib here); dynamic headers with repeat codes / other code-length codes, '
+               'incomplete codes and all error paths are validated against zlib only; '
                'its window rule is the strict RFC one (distance <= 2^wbits) where zlib is more lenient inside one inflate() call',
                'single-threaded use (concurrent compressed sends belong to C11)']
 
@@ -470,6 +472,306 @@ def check_inflater(res, rng, tier, model_ok):
                      % (len(cases), lenient['inflate'], lenient['inflatesafe']))
     res.samples += ['inflate 15 f348cdc9c90700000000fffff248cdc9c907000000ffff', 'inflatesafe 15 f348cdc9c90700000000fffff248cdc9c907000000ffff']
     return total
+
+
+# ---------------------------------------------------------------------------------------------
+# A''. the reference ENCODER of Model/DeflEnc.lean (`deflenc`), about which Properties/C06_Inflate.lean
+#      proves that the Lean inflater reads it correctly: its output is given to REAL zlib.
+
+def _tok_spec(t):
+    return 'L%d' % t if isinstance(t, int) else 'C%d.%d' % t
+
+
+def dyn_lens(toks, flat=False):
+    """complete code lengths (literal/length, distance) covering the tokens and end-of-block, trimmed as the header sends them"""
+    lf, df = [0] * 286, [0] * 30
+    lf[256] = 1
+    for t in toks:
+        if isinstance(t, int):
+            lf[t] += 1
+        else:
+            lf[refcodec._len_sym(t[1])[0]] += 1
+            df[refcodec._dist_sym(t[0])[0]] += 1
+    if sum(1 for x in lf if x) < 2:
+        lf[0] += 1
+    k = 0
+    while sum(1 for x in df if x) < 2:
+        if not df[k]:
+            df[k] = 1
+        k += 1
+    if flat:
+        lf = [1 if x else 0 for x in lf]
+        df = [1 if x else 0 for x in df]
+    ll, dl = refcodec.huff_lengths(lf, 15), refcodec.huff_lengths(df, 15)
+    nlen = max(257, max(i + 1 for i, l in enumerate(ll) if l))
+    ndist = max(1, max(i + 1 for i, l in enumerate(dl) if l))
+    return ll[:nlen], dl[:ndist]
+
+
+def _blk_spec(b):
+    k, fin, toks = b[0], b[1], b[2]
+    if k is True:
+        k = 's'
+    elif k is False:
+        k = 'f'
+    hd = '%s%d' % (k, 1 if fin else 0)
+    if k == 'd':
+        ll, dl = b[3]
+        hd += ';' + ''.join('%x' % l for l in ll) + ';' + ''.join('%x' % l for l in dl)
+    return hd + ':' + ','.join(_tok_spec(t) for t in toks)
+
+
+def _msg_spec(blocks):
+    """blocks: list of (kind 's'|'f'|'d', final?, tokens[, (ll, dl)])"""
+    if not blocks:
+        return '-'
+    return '/'.join(_blk_spec(b) for b in blocks)
+
+
+CL_LENS = [4] * 16 + [0, 0, 0]
+
+
+def _dyn_ok(ll, dl, toks):
+    def complete(lens):
+        return sum(1 << (15 - l) for l in lens if l) == 1 << 15
+    if not (257 <= len(ll) <= 286 and 1 <= len(dl) <= 30 and all(l <= 15 for l in ll + dl)):
+        return False
+    if not (complete(ll) and complete(dl) and ll[256]):
+        return False
+    for t in toks:
+        if isinstance(t, int):
+            if not (t < len(ll) and ll[t]):
+                return False
+        else:
+            ls, ds = refcodec._len_sym(t[1])[0], refcodec._dist_sym(t[0])[0]
+            if not (ls < len(ll) and ll[ls] and ds < len(dl) and dl[ds]):
+                return False
+    return True
+
+
+def _ref_encode(blocks):
+    """the same message through the independent Python bit writer of refcodec.py (payload without the tail);
+       also which of the dynamic blocks are written as such"""
+    bw = refcodec.BitWriter()
+    dyn = ''
+    for b in blocks:
+        st, fin, toks = b[0], b[1], b[2]
+        st = {True: 's', False: 'f'}.get(st, st)
+        if st == 's' and all(isinstance(t, int) for t in toks) and len(toks) <= 65535:
+            refcodec.put_stored_block(bw, bytes(toks), fin)
+        elif st == 'd' and _dyn_ok(b[3][0], b[3][1], toks):
+            dyn += '1'
+            ll, dl = b[3]
+            refcodec.put_dynamic_header(bw, ll, dl, fin, use_repeats=False, cl_lens=CL_LENS)
+            refcodec.put_tokens(bw, toks, refcodec.canonical_codes(ll), refcodec.canonical_codes(dl))
+        else:
+            if st == 'd':
+                dyn += '0'
+            refcodec.put_fixed_block(bw, toks, fin)
+        if fin:
+            bw.align()
+    refcodec.sync_tail(bw)
+    z = bw.bytes()
+    assert z.endswith(TAIL_BYTES)
+    return z[:-4], dyn
+
+
+TAIL_BYTES = b'\x00\x00\xff\xff'
+LBASE = [3, 4, 5, 6, 7, 8, 9, 10, 11, 13, 15, 17, 19, 23, 27, 31, 35, 43, 51, 59, 67, 83, 99, 115, 131, 163, 195, 227, 258]
+DBASE = [1, 2, 3, 4, 5, 7, 9, 13, 17, 25, 33, 49, 65, 97, 129, 193, 257, 385, 513, 769, 1025, 1537, 2049, 3073, 4097, 6145, 8193, 12289, 16385, 24577]
+
+
+def _is_stored(b):
+    return b[0] in (True, 's') and all(isinstance(t, int) for t in b[2]) and len(b[2]) <= 65535
+
+
+def encoder_cases(rng, tier):
+    """histories of messages of blocks of tokens: (kind, w, [message = [(block kind, final, tokens[, lens])]], valid)"""
+    quick = tier == 'quick'
+    cases = []
+
+    def dyn(fin, toks, flat=False):
+        return ('d', fin, toks, dyn_lens(toks, flat))
+
+    def rand_block(have, w, allow_final=True):
+        k = rng.choice(['s', 'f', 'f', 'd', 'd'])
+        fin = allow_final and rng.random() < 0.15
+        n = rng.choice([0, 1, 2, 5, 20, 60])
+        if k == 's' and rng.random() < 0.7:
+            toks = [rng.randrange(256) for _ in range(n)]
+        else:
+            toks, _ = random_tokens(rng, n, have)
+            toks = [t if isinstance(t, int) else (min(t[0], 1 << w), t[1]) for t in toks]
+        if k == 'd':
+            r = rng.random()
+            if r < 0.85:
+                return dyn(fin, toks, flat=rng.random() < 0.2)
+            ll, dl = dyn_lens(toks)
+            if r < 0.9 and toks:                      # a code that lacks a symbol of the block: falls back to fixed
+                return ('d', fin, toks, dyn_lens(toks[:-1] if toks[-1] not in toks[:-1] else []))
+            if r < 0.95:                              # an incomplete code: falls back to fixed
+                ll = list(ll)
+                ll[256] += 1
+                return ('d', fin, toks, (ll, dl))
+            return ('d', fin, toks, (ll + [0] * (300 - len(ll)), dl))       # too many symbols: falls back to fixed
+        return (k, fin, toks)
+
+    def rand_history(w, nmsgs, allow_final=True):
+        hist, msgs = b'', []
+        for _ in range(nmsgs):
+            blocks = []
+            for _ in range(rng.choice([0, 1, 1, 2, 3, 5])):
+                b = rand_block(len(hist), w, allow_final)
+                hist += refcodec.expand_tokens(b[2], hist)
+                blocks.append(b)
+            msgs.append(blocks)
+        return msgs
+
+    # 1. random histories, all windows
+    for _ in range(1200 if quick else 4000):
+        w = rng.randint(9, 15)
+        cases.append(('random', w, rand_history(w, rng.choice([1, 1, 2, 3, 4])), True))
+    for _ in range(100 if quick else 600):
+        w = rng.randint(9, 15)
+        cases.append(('random-nofinal', w, rand_history(w, rng.choice([1, 2, 3]), allow_final=False), True))
+    # 2. every literal, every length, all block kinds, final or not
+    for fin in (False, True):
+        cases.append(('all-literals', 15, [[('f', fin, list(range(256)))], [('s', fin, list(range(256)))], [dyn(fin, list(range(256)))]], True))
+        cases.append(('all-lengths-d1', 15, [[('f', fin, [7] + [(1, n) for n in range(3, 259)])], [dyn(fin, [(1, n) for n in range(3, 259)])]], True))
+        cases.append(('all-lengths-d3', 15, [[('f', False, [1, 2, 3])], [('f', fin, [(3, n) for n in range(3, 259)])],
+                                           [dyn(fin, [(3, n) for n in range(3, 259)], flat=True)]], True))
+    # 3. overlapping matches: distance 1 length 258, distance 2 length 257, ...
+    for d in (1, 2, 3, 4, 5, 257, 258, 259):
+        pre = [rng.randrange(256) for _ in range(d)]
+        cases.append(('overlap', 15, [[('f', False, pre + [(d, 258), (d, 257), (d, 3)])], [dyn(False, [(d, 258), (d, 257), (d, 3)])]], True))
+    # 4. every distance-code boundary, with a 32 KiB history made of stored blocks (max LEN = 65535 as well)
+    big = [rng.randrange(256) for _ in range(65535)]
+    edges = sorted(set(DBASE + [b - 1 for b in DBASE[1:]] + [32768, 32767, 24576]))
+    for fin in ((False,) if quick else (False, True)):
+        etoks = [(d, rng.choice([3, 4, 258])) for d in edges]
+        cases.append(('all-distance-edges', 15, [[('s', False, big)], [('f', fin, etoks)], [dyn(fin, etoks)], [dyn(fin, etoks, flat=True)]], True))
+    if not quick:
+        for _ in range(6):
+            ds = [rng.randint(1, 32768) for _ in range(300)]
+            ft = [(d, rng.randint(3, 258)) for d in ds]
+            cases.append(('far-distances', 15, [[('s', False, big[:40000])], [('f', False, ft)], [dyn(False, ft)]], True))
+    cases.append(('stored-max', 15, [[('s', True, big), ('s', False, big[:1]), ('s', False, [])]], True))
+    cases.append(('stored-too-long-falls-back-to-fixed', 15, [[('s', False, big + [1])]], True))
+    # 5. window edges: distance = 2^w exactly with >= 2^w bytes of history (valid)
+    for w in range(9, 16):
+        n = 1 << w
+        pre = [rng.randrange(256) for _ in range(n)]
+        cases.append(('window-edge', w, [[('s', False, pre)], [('f', False, [(n, 258), (n - 1, 3), (n, 3)])], [dyn(False, [(n, 258), (n - 1, 3), (n, 3)])]], True))
+    # 6. empty things
+    cases.append(('empty', 15, [[]], True))
+    cases.append(('empty', 15, [[('f', False, [])], [('s', False, [])], [('f', True, [])], [('s', True, [])], [dyn(False, [])], [dyn(True, [])], [('f', False, [65])]], True))
+    cases.append(('finals-only', 15, [[('f', True, [65]), ('f', True, [(1, 5)]), ('s', True, [66]), dyn(True, [(3, 4), 67]), ('f', False, [(7, 7)])]], True))
+    # 6b. code lengths up to 15 (a skewed frequency distribution)
+    skew = []
+    for i in range(15):
+        skew += [i] * (1 << i)
+    rng.shuffle(skew)
+    b15 = dyn(False, skew)
+    assert max(b15[3][0]) == 15, max(b15[3][0])
+    cases.append(('dynamic-15-bit-codes', 15, [[b15]], True))
+    # 7. invalid: a distance that reaches before the start of the history
+    for _ in range(40 if quick else 300):
+        w = rng.randint(9, 15)
+        msgs = rand_history(w, rng.choice([1, 2]))
+        plain = b''
+        for m in msgs:
+            for b in m:
+                plain += refcodec.expand_tokens(b[2], plain)
+        have = len(plain)
+        if have + 2 > 32768:
+            continue
+        bad = [65, (have + 2, rng.randint(3, 258))]
+        msgs.append([('f', rng.random() < 0.3, bad) if rng.random() < 0.5 else dyn(rng.random() < 0.3, bad)])
+        cases.append(('too-far-back', w, msgs, False))
+    return cases
+
+
+UNENCODABLE = ['f0:L256', 'f0:C0.3', 'f0:C32769.3', 'f0:C1.2', 'f0:C1.259', 's1:L1,L300', 'f0:L1/f1:C5.0']
+
+
+def check_encoder(res, rng, tier, model_ok):
+    """`deflenc` (DeflEnc.encMsgK) against (a) the independent Python bit writer, byte for byte, and (b) REAL zlib:
+       the payloads + tails of a history, inflated by zlib (with the zdict restart after BFINAL=1 blocks), must be the
+       LZ77 expansion of the tokens (computed here by refcodec.expand_tokens), or a zlib.error for an invalid distance;
+       (c) the Lean inflaters on the same bytes (what Properties/C06_Inflate.lean proves, observed)"""
+    if not model_ok:
+        return 0
+    cases = encoder_cases(rng, tier)
+    lines, where = [], []
+    for ci, (kind, w, msgs, valid) in enumerate(cases):
+        for mi, m in enumerate(msgs):
+            lines.append('deflenc ' + _msg_spec(m))
+            where.append((ci, mi))
+    outs = model_run_par(lines)
+    payloads = {}
+    for (ci, mi), line, o in zip(where, lines, outs):
+        ref, dynflags = _ref_encode(cases[ci][2][mi])
+        if o != 'ok ' + ref.hex() + ' dyn=' + dynflags:
+            res.diffs.append(dict(input=line[:2000], real='(refcodec bit writer) ok ' + ref.hex()[:600] + ' dyn=' + dynflags, model=str(o)[:600],
+                                  note='the Lean reference encoder and the independent Python bit writer disagree'))
+            payloads[(ci, mi)] = None
+        else:
+            payloads[(ci, mi)] = ref
+    inf_lines, inf_expect = [], []
+    for ci, (kind, w, msgs, valid) in enumerate(cases):
+        zs = [payloads[(ci, mi)] for mi in range(len(msgs))]
+        if any(z is None for z in zs):
+            continue
+        chunks = [z + TAIL_BYTES for z in zs]
+        nofinal = not any(b[1] for m in msgs for b in m)
+        plain = None
+        if valid:
+            plain = b''
+            for m in msgs:
+                for b in m:
+                    plain += refcodec.expand_tokens(b[2], plain)
+        want = ('ok', plain) if valid else ('error', None)
+        res.case(('deflenc', w, tuple(zs)), nontrivial=any(b[2] for m in msgs for b in m))
+        res.count('deflenc:' + kind)
+        res.count('deflenc:blocks-stored', sum(1 for m in msgs for b in m if _is_stored(b)))
+        res.count('deflenc:blocks-dynamic', sum(1 for m in msgs for b in m if b[0] == 'd' and _dyn_ok(b[3][0], b[3][1], b[2])))
+        res.count('deflenc:blocks-dynamic-refused-lens', sum(1 for m in msgs for b in m if b[0] == 'd' and not _dyn_ok(b[3][0], b[3][1], b[2])))
+        res.count('deflenc:blocks-fixed', sum(1 for m in msgs for b in m if not _is_stored(b) and not (b[0] == 'd' and _dyn_ok(b[3][0], b[3][1], b[2]))))
+        res.count('deflenc:blocks-final', sum(1 for m in msgs for b in m if b[1]))
+        res.count('deflenc:matches', sum(1 for m in msgs for b in m for t in b[2] if not isinstance(t, int)))
+        res.traces_validated += 1
+        feeds = [('zlib-restart', zlib_feed_safe)] + ([('zlib', zlib_feed)] if nofinal else [])
+        for name, feed in feeds:
+            st, val = feed(w, chunks)
+            ok = (st == 'ok' and val == plain) if valid else (st == 'error' and 'too far back' in val)
+            if not ok:
+                res.diffs.append(dict(input=' | '.join(_msg_spec(m) for m in msgs)[:3000], model='deflenc: ' + ' '.join(z.hex() for z in zs)[:600] +
+                                      ' ; expansion ' + (plain[:60].hex() if plain is not None else 'invalid'),
+                                      real='%s(-%d): %s %s' % (name, w, st, (val[:60].hex() if st == 'ok' else val)),
+                                      note='real zlib does not read the reference encoder\'s output as the LZ77 expansion of the tokens'))
+        hx = b''.join(chunks).hex()
+        if len(hx) < 300000:
+            inf_lines.append('inflatesafe %d %s' % (w, hx))
+            inf_expect.append('ok ' + plain.hex() if valid else 'error')
+            if nofinal:
+                inf_lines.append('inflate %d %s' % (w, hx))
+                inf_expect.append('ok ' + plain.hex() if valid else 'error')
+    for line, want, got in zip(inf_lines, inf_expect, model_run_par(inf_lines)):
+        res.count('deflenc:lean-inflater-run')
+        if got != want:
+            res.diffs.append(dict(input=line[:3000], real='(LZ77 expansion) ' + want[:600], model=str(got)[:600],
+                                  note='Model/Inflate.lean on the reference encoder\'s output: contradicts Properties/C06_Inflate.lean'))
+    for spec, o in zip(UNENCODABLE, runner.model_run(['deflenc ' + u for u in UNENCODABLE])):
+        res.count('deflenc:unencodable')
+        if o != 'unencodable':
+            res.diffs.append(dict(input='deflenc ' + spec, real='(RFC 1951: not representable) unencodable', model=str(o)[:200]))
+    res.exhaustive['deflenc_all_match_lengths_3_258'] = 256
+    res.exhaustive['deflenc_all_literals'] = 256
+    res.exhaustive['deflenc_distance_code_boundaries'] = 62
+    res.notes.append('reference encoder (Model/DeflEnc.lean) validated against zlib on %d histories / %d messages' % (len(cases), len(lines)))
+    res.samples += ['deflenc f0:L72,L101,L108,L108,L111', 'deflenc s0:L72,L105/f1:L33,C1.258,C3.100/f0:L1',
+                    'deflenc ' + _msg_spec([('d', False, [65, 66, 65, (2, 3)], dyn_lens([65, 66, 65, (2, 3)]))])]
+    return len(cases)
 
 
 # ---------------------------------------------------------------------------------------------
@@ -1231,6 +1533,8 @@ def explore(res, tier, seed, model_ok=True):
     rng = random.Random(seed)
     res.rule = ('A: zlib streams (levels 0/1/6/9 x 5 strategies x windows 9..15 x sync/full/partial/block flush sequences), hand-encoded stored/fixed/dynamic blocks incl. '
                 'odd code sets, every truncation, corruptions, BFINAL + trailing data, distances at the window edge: Lean inflater vs zlib. '
+                'A\'\': random histories of messages of stored / fixed / dynamic (complete code lengths from the token frequencies, also flat and up to 15 bits, also invalid lengths) blocks of LZ77 tokens (all literals, all lengths 3..258, every distance-code boundary up to 32768, '
+                'overlapping matches, window edges, BFINAL anywhere, distances too far back) through the Lean reference ENCODER (deflenc): its output vs an independent bit writer and vs REAL zlib inflate = the LZ77 expansion. '
                 'B: every value spelling x both keys x separators, all 256 parameter combinations: real parser vs model vs RFC 7692. '
                 'C/D: %s configurations x {long-range repeats at distances around 250/256/506/512/2^w-262/2^w/32768, incompressible, small+empty+repeated, > window} '
                 'histories in BOTH directions on one connection, compressed messages fragmented at random with control frames between fragments, uncompressed '
@@ -1238,6 +1542,7 @@ def explore(res, tier, seed, model_ok=True):
                 '(RFC 7692 7.2.3.4, with and without context takeover), corrupted payloads and a peer that ignores the negotiated window. '
                 'non-trivial = a compressed message takes part; distinct by (configuration, history, wire bytes)') % ('64 (spread)' if tier == 'quick' else 'all 256')
     check_inflater(res, rng, tier, model_ok)
+    check_encoder(res, random.Random(seed * 7919 + 17), tier, model_ok)
     check_deflate_unit(res, rng, tier)
     check_params(res, rng, tier, model_ok)
     check_connections(res, rng, tier, model_ok)
